@@ -7,9 +7,12 @@ from vlib import build, scn, gen_ops
 from vlib.scn import Scenario, h
 from checks import common
 
+from gen import extract_facts
+generate_facts = extract_facts.generate
+
 ID = "C18"
-LEAN_MODULES = ["Econf.Props.C18"]
-THEOREMS = []
+LEAN_MODULES = ["Econf.Props.C18", "Econf.Props.Struct"]
+THEOREMS = ["Econf.Struct.C18_globals"]
 SHRINK = False
 RULE = ("groups of 2..16 threads in one process (ThreadSanitizer build of the harness), each running its own call sequence (read single "
         "files and two-directory trees, query, set, merge, write, re-read, free) on private objects and private directories; every "
